@@ -139,7 +139,18 @@ def run(ctx):
                 return 'the list parser returned something that is not a prefix of the well-formed extensions before the overrunning one'
         return None
     common.run_differential(ctx, ov, common.proj_value, classify=overrun_class)
-    common.run_cg(ctx, ('ext',), common.proj_value)
+    def cg_class(c, r):
+        # "a length field exceeding the enclosing block never yields a value", read off a corpus line: an SNI extension whose
+        # ServerNameList length is larger than what is left of the extension data
+        t = c.line.split(' ')
+        if t[0] in ('ext', 'ext_client', 'ext_server') and len(t) == 2 and t[1] != '-' and r.startswith('ok '):
+            b = bytes.fromhex(t[1])
+            if len(b) >= 6 and b[0:2] == b'\x00\x00':
+                el = int.from_bytes(b[2:4], 'big')
+                if 2 <= el <= len(b) - 4 and int.from_bytes(b[4:6], 'big') > el - 2:
+                    return 'the ServerNameList length exceeds the extension data: no value may come out'
+        return None
+    common.run_cg(ctx, ('ext',), common.proj_value, classify=cg_class)
     common.lean_failure_violation(ctx, ok)
     return ctx.finish(LEVEL,
         rule='exhaustive over types: 65536 extension types x 3 dispatchers (x probe contents) judged by the type->variant specification (known types per dispatcher, 16 RFC 8701 values, Unknown otherwise, byte-for-byte data), tag-specific parsers over types (own type only), every variant with well-formed contents from the independent encoder through all dispatchers / list parsers / ext_type_of / tag and content parsers (exact), every length field corrupted (differential), overrun families; distinct = (dispatcher, specified variant, probe size, outcome) resp. (family, outcome shape)',
